@@ -12,7 +12,11 @@ def SPEC(tier):
                'every function against the documented formula in long double with a conditioning-aware forward-error bound (x8 margin) and the Euclidean identities evaluated on GLM\'s own results; '
                'a case is non-trivial when the vectors are not axis-aligned and have pairwise distinct |components| (a wrong index or sign is visible), dot != 0, and every branch '
                '(TIR / transmitted, faceforward side, clamp region, orientation) is decided beyond its rounding bound; TIR, dot = 0 and near-threshold classes are counted separately')
-    d['stages'] = [Stage('opt', ['props/C12_geometric.cpp', 'props/C12_gtx.cpp'])]
+    d['stages'] = [Stage('opt', ['props/C12_geometric.cpp', 'props/C12_gtx.cpp']),
+                   # its own binary: <glm/geometric.hpp> is the only GLM header there (an inline function compiled against another include
+                   # order in a second translation unit of the same program would be merged with this one)
+                   Stage('standalone', ['props/C12_standalone.cpp']),
+                   Stage('opt-allhdr', ['props/C12_geometric.cpp', 'props/C12_gtx.cpp'], flags=['-include', 'glm/ext.hpp'], scale=0.25)]
     return d
 
 
